@@ -293,6 +293,37 @@ class Walker:
         return out
 
 
+def lock_sites(root=None):
+    """The places where `Qube.broadcast_to` locks its SOURCE (`self.as_readonly(...)`): for every such call the list of
+    conditions it stands under inside the function, innermost `if` tests split into their `and` conjuncts, as source
+    text.  On the checked tree both calls stand under `else` branches of shape tests and under `if _protected:`; the Lean
+    obligation (`lock_sites_ok`) is that the only NAMED condition other than shape/type tests of the else-chain is
+    `_protected` -- recorded here: the conjuncts of the innermost enclosing `if` whose body holds the call."""
+    root = root or repo_root()
+    tree = ast.parse(open(os.path.join(root, 'polymath', 'qube.py')).read())
+    sites = []
+    for cls in tree.body:
+        if isinstance(cls, ast.ClassDef) and cls.name == 'Qube':
+            for fn in cls.body:
+                if isinstance(fn, ast.FunctionDef) and fn.name == 'broadcast_to':
+                    selfname = fn.args.args[0].arg
+                    def visit(stmts, conds):
+                        for st in stmts:
+                            if isinstance(st, ast.If):
+                                t = st.test
+                                conj = t.values if isinstance(t, ast.BoolOp) and isinstance(t.op, ast.And) else [t]
+                                visit(st.body, [src(c) for c in conj])
+                                visit(st.orelse, conds)
+                            elif isinstance(st, (ast.For, ast.While, ast.With, ast.Try)):
+                                visit(getattr(st, 'body', []), conds)
+                            elif isinstance(st, ast.Expr) and isinstance(st.value, ast.Call) \
+                                    and isinstance(st.value.func, ast.Attribute) and st.value.func.attr == 'as_readonly' \
+                                    and isinstance(st.value.func.value, ast.Name) and st.value.func.value.id == selfname:
+                                sites.append(list(conds))
+                    visit(fn.body, [])
+    return sites
+
+
 def lean_str(s):
     return '"' + s.replace('\\', '\\\\').replace('"', '\\"').replace('\n', ' ') + '"'
 
@@ -341,6 +372,10 @@ def render(table):
         out.append('')
     out.append('def table : List Method := [' + ', '.join(names) + ']')
     out.append('')
+    out.append('/-- Qube.broadcast_to: the conditions under which each `self.as_readonly(...)` (locking the SOURCE) stands -/')
+    out.append('def lockSites : List (List String) := [' +
+               ', '.join('[' + ', '.join(lean_str(c) for c in site) + ']' for site in lock_sites()) + ']')
+    out.append('')
     out.append('end PMV.Gen.Guards')
     return '\n'.join(out) + '\n'
 
@@ -353,7 +388,7 @@ def regen(verif):
     if not os.path.exists(path) or open(path).read() != body:
         open(path, 'w').write(body)
     npaths = sum(len(t[4]) for t in table)
-    return {'obligations': npaths, 'methods': len(table), 'paths': npaths,
+    return {'obligations': npaths + 1, 'methods': len(table), 'paths': npaths, 'lock_sites': lock_sites(),
             'table': 'lean/PMV/Gen/Guards.lean', 'source': repo_root()}
 
 
